@@ -7,7 +7,9 @@
    Model/TimeCode.v (verified under C12).  Also here: the values passed to the progress callback (progress_model)
    and the two configuration decoders of ttconv/stl/config.py (decode_start_tc, decode_max_row_count).
    The model follows the code after the repairs of the second phase (comment blocks skipped, text field cut at the
-   first 0x8F, a paragraph is opened when there is none, VP 0 = row 1, progress division guarded). *)
+   first 0x8F, a paragraph is opened when there is none, VP 0 = row 1, progress division guarded) and the repair of
+   the row count (a maximum row count below 1 - GSI MNR 00, max_row_count 0 or negative - is replaced by the default,
+   so the division of `region_for` never fails: Proofs/C09/File.v reader_no_zero_div). *)
 From Coq Require Import QArith.
 From TT Require Import Base.Prelude Gen.StlTables Model.TimeCode Model.Iso6937 Model.StlTf.
 Open Scope Z_scope.
@@ -112,6 +114,8 @@ Definition init (g : gsi) (cfg : config) : datafile + error :=
                         end
         | MrInt n => if teletext then default_teletext_rows else n
         end in
+      (* if self.max_row_count < 1: LOGGER.error(...); self.max_row_count = DEFAULT_TELETEXT_ROWS *)
+      let rows := if rows <? 1 then default_teletext_rows else rows in
       inl (mkDatafile fps (g_cct g) teletext tti_count lang start rows)
   end.
 
@@ -159,7 +163,7 @@ Definition get_region (rs : list region) (r : region) : Z * list region :=
 Definition safe_area_height : Z := 100 - default_vertical_safe_margin_pct * 2.
 Definition safe_area_width : Z := 100 - default_horizontal_safe_margin_pct * 2.
 
-(* the region of a new subtitle; None = ZeroDivisionError *)
+(* the region of a new subtitle; None = ZeroDivisionError (not reached from `init`, which leaves max_rows >= 1) *)
 Definition region_for (max_rows tti_vp : Z) (tf : list Z) (dh : bool) : option region :=
   let vp := Z.max tti_vp 1 in                       (* vp = max(tti.VP, 1) *)
   if vp <? max_rows / 2 then
